@@ -4,6 +4,7 @@ package main
 
 import (
 	"fmt"
+	"go/ast"
 	"go/token"
 	"go/types"
 	"sort"
@@ -114,6 +115,44 @@ func (m *Model) RunErrLine(s *Sink, rule string) {
 						if st.Field(fa.Field).Name() == "Value" && isEmptyStringConst(stv.Val) {
 							constEmptyValue = true
 						}
+					}
+				}
+				// a node the evaluator reports errors about takes its token BEFORE its children are parsed: in
+				// `&X{Token: p.curToken, Args: p.parseArgs()}` Go evaluates the call first, and the token is then the one
+				// the child ended on (the closing parenthesis, lines below the construct)
+				if fromTok && m.errorReportedNodes()[tname] {
+					var tokLoad ssa.Instruction
+					var children []*ssa.Call
+					for _, r := range *al.Referrers() {
+						fa, ok := r.(*ssa.FieldAddr)
+						if !ok {
+							continue
+						}
+						for _, rr := range *fa.Referrers() {
+							stv, ok := rr.(*ssa.Store)
+							if !ok {
+								continue
+							}
+							if fa.Field == ti {
+								if ld, isLd := stv.Val.(*ssa.UnOp); isLd && (strings.HasSuffix(fieldPathOf(ld), ".curToken") || strings.HasSuffix(fieldPathOf(ld), ".peekToken")) {
+									tokLoad = ld
+								}
+							} else if c, isC := stripIface(stv.Val).(*ssa.Call); isC && c.Call.StaticCallee() != nil && shortPkg(fnPkgPath(c.Call.StaticCallee())) == "parser" && strings.HasPrefix(canonFnName(c.Call.StaticCallee()), "parse") {
+								children = append(children, c)
+							}
+						}
+					}
+					late := ""
+					if tokLoad != nil {
+						for _, c := range children {
+							if m.Ctx(fn).instrDominates(c, tokLoad) {
+								late = valueDesc(c)
+							}
+						}
+					}
+					if late != "" {
+						s.Violation(rule, key+" before its children are parsed", m.InstrPos(al), "%s reads the token of the %s it builds after %s has parsed one of its parts (operands of a composite literal are evaluated calls first): the node's token is the one that part ended on, so errors about the construct name the line of its end, not of the construct", fnKey(fn), tname, late)
+						continue
 					}
 				}
 				switch {
@@ -513,5 +552,133 @@ func tokensNamedBy(v ssa.Value, d int, out map[string]bool) {
 		for _, e := range x.Edges {
 			tokensNamedBy(e, d+1, out)
 		}
+	}
+}
+
+// errorReportedNodes: the ast node types the evaluator passes to its newError (errors about them carry their line).
+func (m *Model) errorReportedNodes() map[string]bool {
+	if m.errNodes != nil {
+		return m.errNodes
+	}
+	m.errNodes = map[string]bool{}
+	ne := m.Method("evaluator", "Evaluator", "newError")
+	if ne == nil {
+		return m.errNodes
+	}
+	if node := m.CG.Nodes[ne]; node != nil {
+		for _, e := range node.In {
+			args := e.Site.Common().Args
+			for _, a := range args {
+				v := stripIface(a)
+				t := derefTypeString(v.Type())
+				if strings.HasPrefix(t, modPath+"/ast.") {
+					m.errNodes[shortTypeName(t)] = true
+				}
+			}
+		}
+	}
+	return m.errNodes
+}
+
+// RunEvalOrder — R-EVALORDER (C13): Go does not specify whether, in one expression, a variable is read before or after a
+// function call in that expression is made (the gc compiler makes the calls first). A composite literal of the parser
+// that reads the parser's current/next token in one element and calls a token-consuming method of the same parser in
+// another (`&ast.X{Token: p.curToken, Args: p.parseArgs()}`) therefore records the token the call ended on. Decided on
+// the syntax tree: such literals must not exist.
+func (m *Model) RunEvalOrder(s *Sink, rule string) {
+	pp := m.ByPath[fullPkg("parser")]
+	if pp == nil {
+		s.Undecided(rule, "parser", "-", "package parser not found")
+		return
+	}
+	// the parser methods that may move the parser on (call nextToken, directly or through other methods)
+	var parFns []*ssa.Function
+	for _, fn := range m.ModFns {
+		if fn.Blocks != nil && shortPkg(fnPkgPath(fn)) == "parser" {
+			parFns = append(parFns, fn)
+		}
+	}
+	nextToken, expectPeek := m.Method("parser", "Parser", "nextToken"), m.Method("parser", "Parser", "expectPeek")
+	if nextToken == nil || expectPeek == nil {
+		s.Undecided(rule, "parser", "-", "nextToken / expectPeek not found")
+		return
+	}
+	ci := m.newConsumerInfo([]*ssa.Function{nextToken}, expectPeek, parFns)
+	mayMove := map[string]bool{}
+	for _, fn := range parFns {
+		if fn == nextToken || ci.may[fn] || ci.always[fn] {
+			mayMove[fn.Name()] = true
+		}
+	}
+	consuming := func(name string) bool { return mayMove[name] }
+	n, lits := 0, 0
+	for _, f := range pp.Syntax {
+		ast.Inspect(f, func(nd ast.Node) bool {
+			cl, ok := nd.(*ast.CompositeLit)
+			if !ok {
+				return true
+			}
+			lits++
+			// a read that is an argument of the moving call itself is made before that call; any other pair is unordered
+			type tokRead struct {
+				pos  token.Pos
+				text string
+			}
+			type movCall struct {
+				lp, rp token.Pos
+				text   string
+			}
+			var reads []tokRead
+			var calls []movCall
+			for _, el := range cl.Elts {
+				v := el
+				if kv, isKV := el.(*ast.KeyValueExpr); isKV {
+					v = kv.Value
+				}
+				ast.Inspect(v, func(x ast.Node) bool {
+					switch y := x.(type) {
+					case *ast.FuncLit:
+						return false
+					case *ast.SelectorExpr:
+						if y.Sel.Name == "curToken" || y.Sel.Name == "peekToken" {
+							if id, isID := y.X.(*ast.Ident); isID {
+								if tv := pp.TypesInfo.TypeOf(id); tv != nil && strings.HasSuffix(tv.String(), "parser.Parser") {
+									reads = append(reads, tokRead{y.Pos(), id.Name + "." + y.Sel.Name})
+								}
+							}
+						}
+					case *ast.CallExpr:
+						if sel, isSel := y.Fun.(*ast.SelectorExpr); isSel && consuming(sel.Sel.Name) {
+							if id, isID := sel.X.(*ast.Ident); isID {
+								if tv := pp.TypesInfo.TypeOf(id); tv != nil && strings.HasSuffix(tv.String(), "parser.Parser") {
+									calls = append(calls, movCall{y.Lparen, y.Rparen, id.Name + "." + sel.Sel.Name + "()"})
+								}
+							}
+						}
+					}
+					return true
+				})
+			}
+			var readsTok, callsParser string
+			for _, r := range reads {
+				for _, c := range calls {
+					if r.pos > c.lp && r.pos < c.rp {
+						continue
+					}
+					if readsTok == "" {
+						readsTok, callsParser = r.text, c.text
+					}
+				}
+			}
+			if readsTok != "" && callsParser != "" {
+				n++
+				s.Violation(rule, fmt.Sprintf("parser|literal at %s reads the token and moves the parser in one expression", m.Pos(cl.Pos())), m.Pos(cl.Pos()),
+					"the composite literal at %s reads %s and calls %s in the same expression: Go leaves the order of the read and the call unspecified and the compiler makes the call first, so the recorded token is the one the call ended on — errors about the construct name the line where it ends", m.Pos(cl.Pos()), readsTok, callsParser)
+			}
+			return true
+		})
+	}
+	if n == 0 {
+		s.OK(rule, "parser|no literal reads the parser's token next to a call that moves it", "-", "%d composite literals of the parser inspected", lits)
 	}
 }
